@@ -43,12 +43,43 @@ func (d *vRecDB) Set(k, v []byte) {
 	d.keys, d.vals = append(d.keys, append([]byte{}, k...)), append(d.vals, v)
 }
 func (d *vRecDB) SetSync(k, v []byte)    { d.Set(k, v) }
-func (d *vRecDB) Delete(k []byte)        {}
-func (d *vRecDB) DeleteSync(k []byte)    {}
-func (d *vRecDB) Close()                 {}
-func (d *vRecDB) NewBatch() dbm.Batch    { return nil }
+func (d *vRecDB) Delete(k []byte) {
+	for i := range d.keys {
+		if bytes.Equal(d.keys[i], k) {
+			d.keys = append(d.keys[:i:i], d.keys[i+1:]...)
+			d.vals = append(d.vals[:i:i], d.vals[i+1:]...)
+			return
+		}
+	}
+}
+func (d *vRecDB) DeleteSync(k []byte) { d.Delete(k) }
+func (d *vRecDB) Close()              {}
+func (d *vRecDB) NewBatch() dbm.Batch { return &vRecBatch{db: d} }
 func (d *vRecDB) Print()                 {}
 func (d *vRecDB) Iterator() dbm.Iterator { return nil }
+
+type vRecBatch struct {
+	db   *vRecDB
+	k, v [][]byte
+	del  []bool
+}
+
+func (b *vRecBatch) Set(k, v []byte) {
+	b.k, b.v, b.del = append(b.k, append([]byte{}, k...)), append(b.v, v), append(b.del, false)
+}
+func (b *vRecBatch) Delete(k []byte) {
+	b.k, b.v, b.del = append(b.k, append([]byte{}, k...)), append(b.v, nil), append(b.del, true)
+}
+func (b *vRecBatch) Write() {
+	for i := range b.k {
+		if b.del[i] {
+			b.db.Delete(b.k[i])
+		} else {
+			b.db.Set(b.k[i], b.v[i])
+		}
+	}
+	b.k, b.v, b.del = nil, nil, nil
+}
 
 // the application: durable (height, app hash); the commit hook answers with the hashes after the block
 type vRecEvsw struct {
